@@ -75,7 +75,7 @@ const (
 	expectFail   = 1 // malformed / truncated / over-long / wrongly typed / non-200: must produce an error
 )
 
-var c12Kinds = []string{"get-sth", "add-chain", "add-pre-chain", "get-sth-consistency", "get-proof-by-hash", "get-raw-entries", "get-entries", "get-roots", "get-entry-and-proof", "decode", "t-add-chain", "t-add-pre-chain"}
+var c12Kinds = []string{"get-sth", "add-chain", "add-pre-chain", "get-sth-consistency", "get-proof-by-hash", "get-raw-entries", "get-entries", "get-roots", "get-entry-and-proof", "decode", "t-add-chain", "t-add-pre-chain", "t-get-roots"}
 
 func init() {
 	// the code under test writes to the standard logger (tls.VerifySignature: "Garbage following
@@ -86,7 +86,7 @@ func init() {
 var c12Path = map[string]string{
 	"get-sth": "get-sth", "add-chain": "add-chain", "add-pre-chain": "add-pre-chain", "get-sth-consistency": "get-sth-consistency",
 	"get-proof-by-hash": "get-proof-by-hash", "get-raw-entries": "get-entries", "get-entries": "get-entries", "get-roots": "get-roots",
-	"get-entry-and-proof": "get-entry-and-proof", "t-add-chain": "add-chain", "t-add-pre-chain": "add-pre-chain",
+	"get-entry-and-proof": "get-entry-and-proof", "t-add-chain": "add-chain", "t-add-pre-chain": "add-pre-chain", "t-get-roots": "get-roots",
 }
 
 type c12Profile struct {
@@ -354,6 +354,7 @@ func (w *c12World) newOp() *c12Op {
 	n := int64(w.log.size())
 	op := &c12Op{ID: len(w.ops), Kind: c12Kinds[t.Pick(w.prof.KindW)], deadlineT: -1}
 	op.Party = fmt.Sprintf("op%03d", op.ID)
+	op.perPath = op.Kind == "t-get-roots"
 	switch op.Kind {
 	case "add-chain":
 		op.sub = w.subs[0]
@@ -448,7 +449,7 @@ func (w *c12World) newOp() *c12Op {
 func (w *c12World) launch(op *c12Op) {
 	s := w.s
 	w.started++
-	if op.isPost() {
+	if op.isPost() || op.Kind == "t-get-roots" {
 		d := []time.Duration{40 * time.Second, 3 * time.Second, 10 * time.Minute}[s.T.Intn(3)] + offGrid
 		op.ctx, op.cancel = context.WithDeadline(w.ctx, time.Now().Add(d))
 		op.deadlineT = s.Now() + d
@@ -501,6 +502,9 @@ func (w *c12World) run(op *c12Op) {
 			r.Entries, r.Err = w.lc.GetEntries(ctx, op.A, op.B)
 		case "get-roots":
 			r.Roots, r.Err = w.lc.GetAcceptedRoots(ctx)
+		case "t-get-roots":
+			// the sharded client asks every shard in parallel and returns the union
+			r.Roots, r.Err = w.tlc.GetAcceptedRoots(ctx)
 		case "get-entry-and-proof":
 			r.EAP, r.Err = w.lc.GetEntryAndProof(ctx, uint64(op.A), uint64(op.B))
 		case "decode":
@@ -600,7 +604,11 @@ func (w *c12World) honest(op *c12Op, c *rtCall) *hon {
 		}
 		h.obj = map[string]any{"entries": list}
 	case "get-roots":
-		h.obj = map[string]any{"certificates": []any{b64(w.pki.root.DER)}}
+		certs := []any{b64(w.pki.root.DER)}
+		if key == w.shardKey {
+			certs = append(certs, b64(w.subs[0].leaf.DER)) // the second shard accepts one more "root": the union is not either answer
+		}
+		h.obj = map[string]any{"certificates": certs}
 	case "get-entry-and-proof":
 		idx, ok1 := qInt(q, "leaf_index")
 		size, ok2 := qInt(q, "tree_size")
@@ -672,6 +680,15 @@ func (w *c12World) Options(s *kernel.Sim) []kernel.Option {
 				op := w.byName[p.Party]
 				c := p.Info.(*rtCall)
 				w.answer(p, op, c, w.mutate(op, c, w.honest(op, c)))
+			}})
+		}
+	}
+	for _, p := range parked {
+		// a shard of the sharded client that simply stops answering: the request ends with the caller's context
+		if op := w.byName[p.Party]; op != nil && op.Kind == "t-get-roots" && w.prof.MutW > 0 {
+			p := p
+			opts = append(opts, kernel.Option{Key: "stall " + p.Key, Weight: (w.prof.MutW + 1) / 2, Apply: func() {
+				w.answer(p, op, p.Info.(*rtCall), &served{Stall: true, Kind: "stall", CutAt: -1})
 			}})
 		}
 	}
